@@ -8,6 +8,7 @@ repository (mkdtemp, removed afterwards), the property's check is run against it
 must report a VIOLATION.
 """
 import os
+import re
 import sys
 import json
 import shutil
@@ -53,6 +54,22 @@ def sensitivity(only=None):
         if not os.path.isfile(patch) or (only and not name.startswith(only)):
             continue
         pid = name.split('-')[0]
+        # meta.json may name another property's check (a change delivered for P but decided by Q's check) and
+        # records what is expected: 'detected', 'neutralised' (a later repair made the change harmless, its
+        # demonstration passes) or 'not-caught' (documented in DESIGN.md section 8)
+        expect = 'detected'
+        try:
+            with open(os.path.join(d, 'meta.json')) as fp:
+                meta = json.load(fp)
+            expect = meta.get('expect', 'detected')
+            m = re.search(r'\./check (C\d\d)', meta.get('check_cmd', ''))
+            if m:
+                pid = m.group(1)
+        except (OSError, ValueError):
+            pass
+        if expect != 'detected':
+            print('sensitivity %s: %s (see DESIGN.md section 8), skipped' % (name, expect))
+            continue
         tmp = tempfile.mkdtemp(prefix='verif-mutant-')
         try:
             shutil.copytree(os.path.join(repo, 'elementpath'), os.path.join(tmp, 'elementpath'))
